@@ -25,6 +25,7 @@ func Reset(epoch, cost int64) {
 	Epoch, CostNs, NowNs = epoch, cost, 0
 	OnSleep = nil
 	Reads, Sleeps, SleptNs = 0, 0, 0
+	Steps, StepCostNs, OnTick = 0, 0, nil
 }
 
 // Now is time.Now on the virtual clock.
@@ -52,4 +53,22 @@ func Sleep(d time.Duration) {
 		return
 	}
 	NowNs += int64(d)
+}
+
+var (
+	// Steps counts evaluation steps (calls of the platform yielder's Yield).
+	Steps int64
+	// StepCostNs is charged per evaluation step.
+	StepCostNs int64
+	// OnTick, if set, is called on every step (the simulator may abort a run from here).
+	OnTick func()
+)
+
+// Tick is inserted by xform at the top of pkg/wasm's Yield methods.
+func Tick() {
+	Steps++
+	NowNs += StepCostNs
+	if OnTick != nil {
+		OnTick()
+	}
 }
